@@ -142,8 +142,8 @@ def main():
         'version': 1,
         'setup_cmd': 'true',
         'hooks': {
-            'guard': 'cargo feature verif-hooks (declared in /repo/Cargo.toml, enabled by nothing by default)',
-            'enable': 'the counterexample search builds /repo (working tree and git HEAD) with features = ["verif-hooks"]; the Verus units read source text and the Kani rows inject a #[cfg(kani)] module into a scratch copy, neither needs the hooks',
+            'guard': 'verif-hooks',
+            'enable': 'cargo feature: --features verif-hooks (declared in /repo/Cargo.toml, enabled by nothing by default). Only the counterexample search (tools/cesearch.py) builds /repo with it; the Verus units read source text and the Kani rows inject a #[cfg(kani)] module into a scratch copy, neither needs the hooks',
             'baseline_off_cmd': 'cd /repo && cargo test --workspace --no-fail-fast --offline',
             'source_commits': ['12f81f6 verif hook: verif_hooks::tz_lookup (public entry to the crate-private TZif reader)',
                                '301f6ac verif hook: CronSchedule::verif_set_now (pins the clock next() reads)'],
